@@ -255,12 +255,83 @@ func c15Incremental(x *mc.Exec) {
 	}
 }
 
+// c15Names: type and relationship names that contain separator characters, so
+// that different (type, name, inverse) triples have the same concatenation
+// (type "x"+name "x_q" against type "x_x"+name "q"): a lookup keyed by a joined
+// string confuses them.
+func c15Names(x *mc.Exec) {
+	sep := []string{"_", ".", "-", "/", " ", ""}[x.Choose(6, "separator")]
+	types := []string{"a", "x", "x" + sep + "x"}
+	names := []string{"p", "q", "x" + sep + "q"}
+	s := &j.Schema{}
+	type placed struct {
+		owner string
+		rel   j.Rel
+	}
+	var all []placed
+	desc := ""
+	for _, tn := range types {
+		t := j.Type{Name: tn, Attrs: map[string]j.Attr{}, Rels: map[string]j.Rel{}}
+		c := x.Choose(1+len(names)*len(types)*(1+len(names)), "relationship of "+tn)
+		if c > 0 {
+			c--
+			from := names[c%len(names)]
+			c /= len(names)
+			to := types[c%len(types)]
+			c /= len(types)
+			inv := ""
+			if c > 0 {
+				inv = names[c-1]
+			}
+			r := j.Rel{FromType: tn, FromName: from, ToOne: true, ToType: to, ToName: inv}
+			t.Rels[from] = r
+			all = append(all, placed{tn, r})
+			desc += fmt.Sprintf("%q.%q->%q inv=%q; ", tn, from, to, inv)
+		}
+		if err := s.AddType(t); err != nil {
+			panic(err)
+		}
+	}
+	x.Render(desc)
+	offenders := 0
+	for _, p := range all {
+		if p.rel.ToName == "" {
+			continue
+		}
+		found := false
+		for _, q := range all {
+			if q.owner == p.rel.ToType && q.rel.FromName == p.rel.ToName && q.rel.ToName == p.rel.FromName {
+				found = true
+			}
+		}
+		if !found {
+			offenders++
+		}
+	}
+	if offenders > 0 && offenders < len(all) {
+		x.R.Mark("nontrivial", mc.Hash(desc))
+	}
+	x.R.Sample("names", desc)
+	var errs []error
+	p := Try(func() { errs = s.Check() })
+	x.R.Add("transitions", 1)
+	x.Observe(desc, len(errs), p)
+	switch {
+	case p != "":
+		x.Fail("C15:names:panic", "Check panicked on %s: %s", desc, p)
+	case offenders == 0 && len(errs) != 0:
+		x.Fail("C15:names:false-positive", "schema %s has no offending relationship but Check reports %v", desc, errs)
+	case len(errs) < offenders:
+		x.Fail("C15:names:missed", "schema %s has %d offending relationship(s) but Check reports %d: %v", desc, offenders, len(errs), errs)
+	}
+}
+
 func init() {
 	Register(&Prop{
 		ID: "C15",
-		Rule: "Engine A: ALL schemas over types {a,b} (type c always missing; thorough adds a third type d): per type two relationship slots x,y, each absent or target{a,b,c} x inverse{\"\",x,y} x FromType{owner,other,empty} (28 options per slot, 28^4 + smaller type sets), both type orders, relationships stored under their names or under unrelated map keys; the iteration order of every map loop instance inside Check is a deviation-bounded choice (bound 1). plus every history of 4 (thorough 5) schema edits (incl. edits that break and repair coherence) with Check() called after every subset of them, the final verdict compared with an equal schema built in one go. Oracle: independent offender count; Check()==[] iff no offender, len(Check()) >= offenders, no panic, deep snapshot of the schema unchanged. Non-trivial = schema with some but not all relationships offending",
+		Rule: "Engine A: ALL schemas over types {a,b} (type c always missing; thorough adds a third type d): per type two relationship slots x,y, each absent or target{a,b,c} x inverse{\"\",x,y} x FromType{owner,other,empty} (28 options per slot, 28^4 + smaller type sets), both type orders, relationships stored under their names or under unrelated map keys; the iteration order of every map loop instance inside Check is a deviation-bounded choice (bound 1). plus every history of 4 (thorough 5) schema edits (incl. edits that break and repair coherence) with Check() called after every subset of them, the final verdict compared with an equal schema built in one go. plus ALL schemas of three types a, x, x<sep>x each with at most one relationship named p, q or x<sep>q towards any of them with inverse name in {none, p, q, x<sep>q}, for 6 separators (names whose joined strings coincide). Oracle: independent offender count; Check()==[] iff no offender, len(Check()) >= offenders, no panic, deep snapshot of the schema unchanged. Non-trivial = schema with some but not all relationships offending",
 		Assumptions: []string{"'names it back' is the pair-of-names test of the statement; whether the inverse also points at the owning type is not demanded (weaker reading)"},
 		Harnesses: []Harness{{Name: "C15/all-schemas", Body: c15Body, ShardDepth: 3, Dev: func() int { return 1 }},
-			{Name: "C15/incremental", Body: c15Incremental}},
+			{Name: "C15/incremental", Body: c15Incremental}, {Name: "C15/names", Body: c15Names}},
 	})
 }
